@@ -18,7 +18,8 @@
     request without them.  If so: every component is its header's value when
     that is present and non-empty, else the actual request; the client list is
     the announced one, as a class.  In both cases the matched rule fits the
-    view shown.  guard 1 = C09-F1 (pinned loader only). *)
+    view shown.  guard 1 = C09-F1 (pinned loader only: never raised under
+    [check true]; the stream has `findings: {}`). *)
 From HV Require Export Base.Prelude C09.Model C09.Proofs C09.Request.
 Open Scope string_scope.
 
@@ -286,7 +287,8 @@ Definition guard_F1_case (c : case) : bool :=
   guard_F1 (map (entry_of (o_parse_ip c) (o_parse_cidr c)) (configured (k_mode c) (k_cfg c)))
            (o_parse_ip c (ip_from_host_port (o_split c) (r_remote (k_req c)))).
 
-(** one request.  [impl_fixed]: false for the pinned loader (C09-F1 open), true once fixes/C09-F1.diff is applied *)
+(** one request.  [impl_fixed]: true = the tree since fix: e501d3a (what the stream runs: [check true]);
+    false = the loader before it *)
 Definition check1 (impl_fixed : bool) (c : case) : verdict :=
   {| v_corr := oracles_ok c && headers_ok c && k_loaded c && corr impl_fixed c;
      v_prop := prop c;
